@@ -175,7 +175,7 @@ func (k *r4client) Instr(s r4state, in ssa.Instruction) (r4state, bool, []r4stat
 					continue
 				}
 				sc := c.Common().StaticCallee()
-				if sc == nil || funcPkgPath(sc) != "unicode/utf8" || !strings.HasPrefix(sc.Name(), "DecodeRune") {
+				if sc == nil || funcPkgPath(sc) != "unicode/utf8" || !strings.HasPrefix(core.FuncName(sc), "DecodeRune") {
 					continue
 				}
 				sl, ok := c.Common().Args[0].(*ssa.Slice)
@@ -537,7 +537,7 @@ func chunkHead(p *core.Prog, r *core.Result, pk string) {
 					if g == fam.feedUntil {
 						if m, v, ok := reentryMask(g); ok {
 							if why := maskPremise(p, fam, sc, m, v); why == "" {
-								maskOK[sc] = fmt.Sprintf("feedUntil re-enters with an empty chunk only when state&%#x == %#x, and no arm of %s whose label satisfies that mask reads the chunk head unguarded", m, v, sc.Name())
+								maskOK[sc] = fmt.Sprintf("feedUntil re-enters with an empty chunk only when state&%#x == %#x, and no arm of %s whose label satisfies that mask reads the chunk head unguarded", m, v, core.FuncName(sc))
 								continue
 							} else {
 								bad[sc] = "the dispatcher re-enters it with an empty chunk when state&mask matches, and " + why
